@@ -5,6 +5,8 @@ from lunaverif.core import Sub, Result, fail
 from lunaverif.gen import long_lists, weighted
 from lunaverif.bfm import g9_usb2host as H
 from lunaverif.bfm import g9_hostgen as G
+from lunaverif.bfm import g8_gen as E
+from lunaverif.bfm.g8_ephost import EpHost, Segments, interface_ports, crc_body, PID_OUT, PID_SETUP, D_HS
 
 PROPERTY = "C14"
 ASSUMPTIONS = [
@@ -18,6 +20,16 @@ ASSUMPTIONS = [
     "signal (status) endpoint's toggle after a clear-halt that names it (it does not implement clear-halt)",
     "whether an OUT packet that may overflow the FIFO is ACKed or NAKed is C13's subject; the toggle must follow "
     "the handshake actually sent",
+    "sub 'out-speeds': one USBStreamOutEndpoint driven at its EndpointInterface with the strobe order and timing "
+    "device.py produces (lunaverif.bfm.g8_ephost, cross-checked against the real token detector / receiver / timers): "
+    "response decision 1 cycle (high speed), 2 (full speed, 12 MHz table) or 10 (full speed, 60 MHz table) after the "
+    "end of the packet, one more for packets of <= 8 bytes when the device has a control endpoint. The host is legal: "
+    "well-formed packets, toggle advanced on every ACK it sees, the same packet again after a NAK or a lost ACK (or "
+    "the transfer given up), PING tokens only at high speed -- either the bulk PING protocol (after a NAK every OUT "
+    "is preceded by a PING and only sent if that is ACKed) or none (an interrupt endpoint retries directly); a "
+    "completed CLEAR_FEATURE(ENDPOINT_HALT) reaches the endpoint as the clear_endpoint_halt strobe in the cycle of "
+    "the host's ACK of the status stage and resets the host's toggle too when it names this endpoint's OUT side. "
+    "A transaction not answered with exactly one ACK or NAK is C13's subject and ends the judgement of that case",
 ]
 
 def tables(in_eps, out_eps):
@@ -158,4 +170,343 @@ class HighNumbers(Toggles):
             "neighbours (3, 11, 8), 0, 5, 13, 15; non-trivial as in 'toggles'")
 
 
-SUBS = [Toggles(), HighNumbers()]
+# ---------------------------------------------------------------------------------------------------------------------
+# The OUT toggle at every speed / timer table (endpoint level)
+# (max_packet_size, buffer_size or None (= the default 2*mps-1), endpoint number)
+OUT_CONFIGS = [(8, None, 2), (8, 8, 2), (16, None, 5), (16, 16, 5), (16, 40, 13), (64, None, 1)]
+CLOSING = [dict(op="drain"),
+           dict(op="out", n=2, ack_lost=False, retry=True, lead=1, period=1, jitter=[], trail=0, tok2data=3, gap=2),
+           dict(op="out", n=1, ack_lost=False, retry=True, lead=2, period=1, jitter=[], trail=1, tok2data=3, gap=2),
+           dict(op="drain")]
+
+
+def _out_endpoint(mps, buf, ep):
+    """USBStreamOutEndpoint with its clear_endpoint_halt_in fields driven from three plain signals."""
+    from amaranth import Elaboratable, Module, Signal
+    from luna.gateware.usb.usb2.endpoints.stream import USBStreamOutEndpoint
+
+    class Wrapped(Elaboratable):
+        def __init__(self):
+            self.ep = USBStreamOutEndpoint(endpoint_number=ep, max_packet_size=mps, buffer_size=buf)
+            self.ch_en, self.ch_dir, self.ch_num = Signal(name="ch_en"), Signal(name="ch_dir"), Signal(4, name="ch_num")
+
+        def elaborate(self, platform):
+            m = Module()
+            m.submodules.ep = self.ep
+            ch = self.ep.interface.clear_endpoint_halt_in
+            m.d.comb += [ch.enable.eq(self.ch_en), ch.direction.eq(self.ch_dir), ch.number.eq(self.ch_num)]
+            return m
+    return Wrapped()
+
+
+def out_speed_ops(ep, mps, N, d):
+    # lengths: full packets, the lengths that make whole packets end exactly at / one byte past the end of the buffer, any
+    n = st.one_of(st.sampled_from([mps, mps, mps, mps - 1, 1, 0, (N + 1) % mps, N % mps]),
+                  st.sampled_from([mps, mps, mps, mps - 1, 1, 0, (N + 1) % mps, N % mps]), st.integers(0, mps))
+    fields = dict(ack_lost=weighted([(False, 4), (True, 1)]), retry=weighted([(True, 4), (False, 1)]),
+                  lead=st.integers(1, 3), period=weighted([(1, 5), (2, 2), (3, 1), (5, 1)]),
+                  jitter=st.lists(st.integers(0, 2), max_size=3), trail=weighted([(0, 3), (1, 2), (2, 1)]),
+                  tok2data=st.integers(2, 12), gap=E.gap)
+    out = st.fixed_dictionaries(dict(op=st.just("out"), n=n, **fields))
+    # "tight": the host first sends as many packets as it takes to leave exactly `b` free bytes in the buffer (as far as
+    # the consumer lets it: `stall` keeps the consumer from reading until the packet is answered), then an n-byte packet:
+    # its byte number b (0 = first, n-1 = last) is the one that finds the FIFO full
+    tight = st.fixed_dictionaries(dict(
+        op=st.just("tight"), n=st.one_of(st.sampled_from([mps, mps, mps - 1, 2, 1]), st.integers(1, mps)),
+        at=weighted([("last", 4), ("first", 2), ("any", 2)]), pos=st.integers(0, 1023),
+        stall=weighted([(True, 3), (False, 1)]), **fields))
+    others = [e for e in range(16) if e != ep]
+    bg_kinds = [E.in_other(list(range(16))), E.out_other(others), E.foreign(), E.idle, E.sof]
+    if d == D_HS:
+        bg_kinds.append(E.ping(others))
+    bg = st.fixed_dictionaries(dict(op=st.just("bg"), ev=st.one_of(*bg_kinds)))
+    # CLEAR_FEATURE(ENDPOINT_HALT) completing: this endpoint's OUT side, its IN side, numbers one bit away, any
+    addr = st.one_of(st.just([ep, 0]), st.just([ep, 0]), st.just([ep, 1]),
+                     st.tuples(st.sampled_from([ep ^ 1, ep ^ 2, ep ^ 4, ep ^ 8, 0]), st.integers(0, 1)).map(list),
+                     st.tuples(st.integers(0, 15), st.integers(0, 1)).map(list))
+    clear = st.fixed_dictionaries(dict(op=st.just("clear"), addr=addr, gap=E.gap, ack_delay=st.integers(1, 6),
+                                       tok2data=st.integers(2, 8)))
+    kinds = [out] * 5 + [tight] * 2 + [bg, clear]
+    if d == D_HS:
+        kinds.append(st.fixed_dictionaries(dict(op=st.just("ping"), gap=E.gap)))
+    return st.one_of(*kinds)
+
+
+class OutSpeeds(Sub):
+    name = "out-speeds"
+    budget = {"quick": 700, "thorough": 15000}
+    shrink_budget = 300
+    rule = ("USBStreamOutEndpoint (mps 8/16/64, buffer mps / default 2*mps-1 / 40) at its EndpointInterface with the "
+            "response timing of all three timer tables (high speed 1 cycle, full speed 2 or 10 cycles, +1 behind a "
+            "control endpoint for <= 8 bytes) under a legal host: histories of 4..30 items, mostly OUT transactions of 0..mps bytes "
+            "(weighted to 1, mps-1, mps and the lengths that end at / one past the end of the buffer) and 'tight' items -- the "
+            "host fills the buffer until exactly b bytes are free (consumer held off, 3 in 4) and then sends an n-byte "
+            "packet, so that the FIFO runs full at a chosen byte of it: the last (1 in 2), the first, any --, lost ACKs (toggle re-used), retries after NAK or the transfer given up, at high speed "
+            "PINGs (bulk PING protocol after a NAK, or direct retries as on an interrupt endpoint), completed "
+            "CLEAR_FEATURE(ENDPOINT_HALT) strobes naming this endpoint's OUT side / its IN side / one-bit-neighbour "
+            "numbers / any, background traffic; consumer ready patterns from always to never; a drain and two closing "
+            "OUT transactions expose the final toggle. Oracle = toggle model: it advances on an ACK of a packet that "
+            "carries the expected toggle and on nothing else (NAK, ACK of a repeated toggle, other traffic), returns to "
+            "DATA0 on a clear-halt naming exactly (this number, OUT); the delivered byte stream must be the payloads "
+            "(every packet's bytes are distinct) of exactly the ACKed packets that carried the model's toggle. "
+            "non-trivial = an in-sequence packet is NAKed and a later in-sequence packet is ACKed")
+
+    def setup(self):
+        self.h = {}
+
+    def harness(self, cfg):
+        if cfg not in self.h:
+            from lunaverif.simkit import CycleHarness
+            dut = _out_endpoint(*OUT_CONFIGS[cfg])
+            ins, outs = interface_ports(dut.ep.interface)
+            ins.update(o_ready=dut.ep.stream.ready, ch_en=dut.ch_en, ch_dir=dut.ch_dir, ch_num=dut.ch_num)
+            outs.update(o_valid=dut.ep.stream.valid, o_data=dut.ep.stream.payload)
+            self.h[cfg] = CycleHarness(dut, ins, outs, domain="usb")
+        return self.h[cfg]
+
+    def strategy(self):
+        def case(cd):
+            cfg, d = cd
+            mps, buf, ep = OUT_CONFIGS[cfg]
+            return st.fixed_dictionaries(dict(
+                cfg=st.just(cfg), d=st.just(d), ctrl=weighted([(True, 2), (False, 1)]),
+                pingp=weighted([(True, 2), (False, 1)]), salt=st.integers(0, 255),
+                ready=st.one_of(E.ready_segments, st.just([[0, 1]]), st.just([[0, 1]]),
+                                st.integers(3, 40).map(lambda k: [[1, 1], [0, k]]),
+                                st.tuples(st.integers(40, 400), st.integers(1, 2 * mps)).map(lambda a: [[0, a[0]], [1, a[1]]]),
+                                E.segments(weighted([(0, 3), (1, 1)]), max_dwell=80, max_seg=8),
+                                st.lists(st.tuples(weighted([(0, 2), (1, 1)]), st.integers(1, 3 * mps)).map(list),
+                                         min_size=2, max_size=8)),
+                ops=long_lists(out_speed_ops(ep, mps, buf if buf is not None else 2 * mps - 1, d), min_size=4, max_size=30, average=17)))
+        cfgs = weighted([(i, 1 if OUT_CONFIGS[i][0] == 64 else 2) for i in range(len(OUT_CONFIGS))])
+        return st.tuples(cfgs, weighted([(1, 3), (2, 2), (10, 2)])).flatmap(case)
+
+    def run(self, case):
+        mps, buf, ep = OUT_CONFIGS[case["cfg"]]
+        N = buf if buf is not None else 2 * mps - 1
+        d, salt = case["d"], case.get("salt", 0)
+        pingp = bool(case.get("pingp")) and d == D_HS
+        rdy = Segments(case["ready"])
+        ops = list(case["ops"]) + CLOSING
+        ready_at = []
+        hst = dict(i=0, ht=0, pending=None, last=None, drain=False, pingstate=False, ping_for=None, queue=[], clear=None,
+                   tight=None, stall=False, acc=0, dup=False, consumed=0)
+        sent = {}       # log index -> dict(toggle, payload)
+        clears = {}     # log index (of the status-stage IN) -> [number, direction]
+
+        def side(t, prev, host):
+            if prev is not None and prev.o_valid and ready_at[-1]:
+                hst["consumed"] += 1
+            r = 1 if hst["drain"] else (0 if hst["stall"] else rdy.at(t))
+            ready_at.append(r)
+            v = dict(o_ready=r, ch_en=0)
+            c = hst["clear"]
+            if c is not None and len(host.log) > c[0] and host.log[c[0]].get("t_ack") == t:
+                v.update(ch_en=1, ch_num=c[1][0], ch_dir=c[1][1])
+            return v
+
+        def response_of(host, j):
+            nh1 = host.log[j + 1]["nh0"] if j + 1 < len(host.log) else len(host.hs_out)
+            return [k for _, k in host.hs_out[host.log[j]["nh0"]:nh1]]
+
+        def out_event(host, i, op):
+            payload = hst["pending"] if hst["pending"] is not None else \
+                [(salt + 29 * i + 101 * op.get("filler", 0) + 7 * k) & 0xFF for k in range(op["n"])]
+            j = len(host.log)
+            hst["last"] = (j, op, payload)
+            sent[j] = dict(toggle=hst["ht"], payload=payload, trail=op["trail"])
+            return dict(k="out", ep=ep, pid=PID_OUT, dpid=hst["ht"], data=crc_body(payload), lead=op["lead"],
+                        period=op["period"], jitter=op["jitter"], trail=op["trail"], tok2data=op["tok2data"], gap=op["gap"])
+
+        def more(host):
+            if hst["last"] is not None:                     # what the host saw of its previous OUT transaction
+                j, op, payload = hst["last"]
+                kinds = response_of(host, j)
+                if kinds == ["ack"]:
+                    if not hst["dup"]:
+                        hst["acc"] += len(payload)            # (steering only) bytes the endpoint has taken so far
+                    hst["dup"] = bool(op["ack_lost"])
+                if kinds == ["ack"] and not op["ack_lost"]:
+                    hst["ht"] ^= 1
+                    hst["pending"] = None
+                    hst["pingstate"] = False
+                elif kinds == ["ack"]:
+                    hst["pending"] = payload                  # ACK lost on its way: same packet, same toggle again
+                else:
+                    hst["pending"] = payload if op["retry"] else None
+                    hst["pingstate"] = True
+                    hst["tight"] = None
+                hst["last"] = None
+                if hst["tight"] is None:
+                    hst["stall"] = False
+            if hst["ping_for"] is not None:                 # bulk PING protocol: OUT only after an ACKed PING
+                j, i, op = hst["ping_for"]
+                hst["ping_for"] = None
+                if response_of(host, j) == ["ack"]:
+                    hst["pingstate"] = False
+                    return out_event(host, i, op)
+                hst["tight"], hst["stall"] = None, False      # the host defers the transfer
+            if hst["queue"]:
+                ev = hst["queue"].pop(0)
+                if ev.get("clear") is not None:
+                    j = len(host.log)
+                    hst["clear"] = (j, ev["clear"])
+                    clears[j] = ev["clear"]
+                    if ev["clear"] == [ep, 0]:
+                        hst["ht"] = 0                         # the host resets its toggle as well [USB 2.0: 9.4.5]
+                        hst["dup"] = False
+                return ev
+            tg = hst["tight"]
+            if tg is not None:
+                free = N - (hst["acc"] - hst["consumed"])
+                if free > tg["b"] and tg["fillers"] < 8:
+                    tg["fillers"] += 1
+                    return send(host, tg["i"], dict(tg["op"], n=min(mps, free - tg["b"]), filler=tg["fillers"],
+                                                    ack_lost=False, trail=1))
+                hst["tight"] = None
+                return send(host, tg["i"], tg["op"])
+            if hst["i"] >= len(ops):
+                return None
+            i = hst["i"]
+            op = ops[i]
+            hst["i"] += 1
+            k = op["op"]
+            if k == "drain":
+                hst["drain"] = True
+                return dict(k="idle", n=N + 8, gap=0)
+            if k == "bg":
+                return op["ev"]
+            if k == "ping":
+                return dict(k="ping", ep=ep, gap=op["gap"])
+            if k == "clear":
+                num, direction = op["addr"]
+                req = [0x02, 1, 0, 0, num | (direction << 7), 0, 0, 0]
+                hst["queue"].append(dict(k="in", ep=0, mine=False, hs="ack", other_len=3, gap=2,
+                                         ack_delay=op["ack_delay"], clear=[num, direction]))
+                return dict(k="out", ep=0, pid=PID_SETUP, dpid=0, data=crc_body(req), lead=1, period=1, jitter=[],
+                            trail=1, tok2data=op["tok2data"], gap=op["gap"])
+            if k == "tight":
+                n = op["n"]
+                b = n - 1 if op["at"] == "last" else (0 if op["at"] == "first" else op["pos"] % n)
+                hst["tight"] = dict(i=i, op=op, b=b, fillers=0)
+                hst["stall"] = bool(op["stall"])
+                return more(host)
+            return send(host, i, op)
+
+        def send(host, i, op):
+            if pingp and hst["pingstate"]:
+                hst["ping_for"] = (len(host.log), i, op)
+                return dict(k="ping", ep=ep, gap=op["gap"])
+            return out_event(host, i, op)
+
+        host = EpHost([], d=d, side=side, more=more, ctrl=case["ctrl"])
+        trace = self.harness(case["cfg"]).run_driver(host, 400000)
+        if host.done_at is None:
+            raise RuntimeError("host script did not finish")
+        got = [o.o_data for t, o in enumerate(trace) if o.o_valid and ready_at[t]]
+
+        # transcript for the toggle model: ("clear", number, direction) | ("out", toggle, payload, "ack"|"nak", log index)
+        script = []
+        labels = {f"d={d}{'+ctrl' if case['ctrl'] else ''}", f"mps={mps}/buf={N}"}
+        for j, rec in enumerate(host.log):
+            if j in clears and rec.get("t_ack") is not None:
+                script.append(("clear", clears[j][0], clears[j][1]))
+            elif j in sent:
+                kinds = response_of(host, j)
+                if kinds not in (["ack"], ["nak"]):
+                    return Result(ok=True, nontrivial=False, labels=("handshake-anomaly-left-to-C13",))
+                script.append(("out", sent[j]["toggle"], sent[j]["payload"], kinds[0], j))
+                if kinds == ["nak"] and rec.get("t_rdy") is not None and rec["t_rdy"] <= rec["T"] + 2 and not sent[j]["trail"]:
+                    labels.add("nak-decided-with-last-byte-in-flight")
+
+        def model(deviation=None, note=None):
+            """The statement's toggle rule over the transcript -> the bytes that must have been delivered.
+            deviation (diagnosis only) = (index into script, what) names ONE step at which a wrong rule is applied."""
+            dt, out, nak_seen, nontrivial = 0, [], False, False
+            for idx, ev in enumerate(script):
+                wrong = deviation is not None and deviation[0] == idx
+                if ev[0] == "clear":
+                    mine = (ev[1] == ep and ev[2] == 0)
+                    if note is not None:
+                        note.add("clear-halt-mine-at-DATA%d" % dt if mine else
+                                 ("clear-halt-my-number-IN" if ev[1] == ep else "clear-halt-other-number"))
+                    if mine != wrong:
+                        dt = 0
+                    continue
+                _, tog, payload, kind, j = ev
+                if kind == "ack" and tog == dt:
+                    out += payload
+                    if not wrong:
+                        dt ^= 1
+                    if nak_seen:
+                        nontrivial = True
+                    if note is not None:
+                        note.add("ack-new-zlp" if not payload else "ack-new")
+                elif kind == "ack":
+                    if wrong:
+                        dt ^= 1
+                    if note is not None:
+                        note.add("ack-repeated-toggle")
+                else:
+                    if wrong:
+                        dt ^= 1
+                    if tog == dt or wrong:
+                        nak_seen = True
+                    if note is not None:
+                        note.add("nak" if tog == dt else "nak-repeated-toggle")
+            return out, nontrivial
+
+        expected, nontrivial = model(note=labels)
+        if pingp:
+            labels.add("ping-protocol")
+        if got != expected:
+            k = next((i for i, (a, b) in enumerate(zip(got, expected)) if a != b), min(len(got), len(expected)))
+            sig, why = "out-stream-disagrees-with-toggle-model", "no single wrong toggle step explains the delivered stream"
+            # diagnosis: which single wrong toggle step would explain what was delivered?  A wrong step is only located up
+            # to the next packet that exposes the toggle, so all candidates are listed; the signature names the first of:
+            # advance on a NAK, reset by a foreign clear-halt, missed own clear-halt, advance on a repeated toggle, no
+            # advance on an ACK of new data
+            cands = []
+            for idx, ev in enumerate(script):
+                if model(deviation=(idx, True))[0] != got:
+                    continue
+                if ev[0] == "clear":
+                    mine = (ev[1] == ep and ev[2] == 0)
+                    cands.append((2 if mine else 1,
+                                  "out-toggle-not-reset-by-its-clear-halt" if mine else "out-toggle-reset-by-clear-halt-naming-another-endpoint",
+                                  f"the clear-halt naming endpoint {ev[1]} {'IN' if ev[2] else 'OUT'} (step {idx}) "
+                                  + ("NOT resetting the toggle" if mine else "resetting this endpoint's OUT toggle")))
+                else:
+                    _, tog, payload, kind, j = ev
+                    rec = host.log[j]
+                    what = f"the DATA{tog} packet of log entry {j} ({len(payload)} bytes, rx end T={rec['T']}, {kind.upper()} at {rec.get('t_rdy')})"
+                    if kind == "nak":
+                        cands.append((0, "out-toggle-advanced-on-nak", f"the toggle advancing on {what}"))
+                    elif tog == self._toggle_before(script, idx, ep):
+                        cands.append((4, "out-toggle-not-advanced-on-ack-of-new-data", f"the toggle NOT advancing on {what}"))
+                    else:
+                        cands.append((3, "out-toggle-advanced-on-ack-of-repeated-toggle", f"the toggle advancing on {what}, a repeated toggle"))
+            if cands:
+                cands.sort(key=lambda c: c[0])
+                sig = cands[0][1]
+                why = "explained by " + " / or by ".join(c[2] for c in cands[:3])
+            return fail(f"OUT ep{ep} (mps {mps}, buffer {N}, d={d}{'+ctrl' if case['ctrl'] else ''}): delivered stream differs from the "
+                        f"ACKed packets that carried the expected toggle -- {why}; first difference at byte {k}: delivered "
+                        f"{len(got)} bytes {got[max(0, k - 2):k + 4]}, toggle model expects {len(expected)} bytes "
+                        f"{expected[max(0, k - 2):k + 4]}", signature=sig)
+        return Result(ok=True, nontrivial=nontrivial, labels=tuple(sorted(labels)))
+
+
+    @staticmethod
+    def _toggle_before(script, upto, ep):
+        dt = 0
+        for ev in script[:upto]:
+            if ev[0] == "clear":
+                if ev[1] == ep and ev[2] == 0:
+                    dt = 0
+            elif ev[3] == "ack" and ev[1] == dt:
+                dt ^= 1
+        return dt
+
+
+SUBS = [Toggles(), HighNumbers(), OutSpeeds()]
